@@ -3,6 +3,8 @@ package main
 import (
 	"fmt"
 	"math"
+	"os"
+	"os/exec"
 	"reflect"
 	"strings"
 
@@ -536,6 +538,7 @@ func implHist(p *vproto.Parser) string {
 		return t, "ok"
 	}
 	orc := &oracle{defs: allDefs, seen: map[string]string{}}
+	twins := hasTwins(defs)
 	// Do the two definitions of transformer k denote the same CRS once the constructors' defaults are
 	// applied?  (all fields of copies of freshly parsed objects after one constructor run; floats within 4 ulp)
 	for k := range pairs {
@@ -580,6 +583,12 @@ func implHist(p *vproto.Parser) string {
 		tg := tag()
 		xd := xdiff()
 		f := callRes(ft, c.x, c.y)
+		if twins {
+			// references differing only in a flag: the in-process "fresh" transformer shares whatever the
+			// package keeps per process with the pooled one, so the reference answer is taken from a
+			// process that has done nothing but this one call
+			f = freshProcess(allDefs[pairs[k][0]], allDefs[pairs[k][1]], c.x, c.y)
+		}
 		fmt.Fprintf(&b, " r %s f %s %s %s", r, f, tg, xd)
 		vproto.Safe(func() { orc.shadow(info, canon[pairs[k][0]], canon[pairs[k][1]], wgs, c.x, c.y) })
 	}
@@ -588,4 +597,73 @@ func implHist(p *vproto.Parser) string {
 		b.WriteString(r)
 	}
 	return b.String()
+}
+
+// ---- twin references: the fresh answer from a process of its own ---------------------------------------
+
+// flagless strips the boolean parameters (those the parser reads without a value) from a definition.
+func flagless(def string) string {
+	var out []string
+	for _, t := range strings.Fields(undef(def)) {
+		switch strings.ToLower(strings.TrimPrefix(t, "+")) {
+		case "south", "czech", "r_a", "no_defs":
+			continue
+		}
+		out = append(out, t)
+	}
+	return strings.Join(out, " ")
+}
+
+// hasTwins: two different definitions of the line agree once their boolean flags are dropped.
+func hasTwins(defs []string) bool {
+	for i := range defs {
+		for j := 0; j < i; j++ {
+			if undef(defs[i]) != undef(defs[j]) && flagless(defs[i]) == flagless(defs[j]) {
+				return true
+			}
+		}
+	}
+	return false
+}
+
+func freshProcess(src, dst string, x, y float64) string {
+	exe, err := os.Executable()
+	if err != nil {
+		return "err fresh-process-unavailable"
+	}
+	out, err := exec.Command(exe, "fresh1", src, dst, vproto.F2H(x), vproto.F2H(y)).Output()
+	res := strings.TrimSpace(string(out))
+	if err != nil || res == "" {
+		return "err fresh-process-failed"
+	}
+	return res
+}
+
+func fresh1(args []string) {
+	if len(args) != 4 {
+		fmt.Println("err fresh1-usage")
+		return
+	}
+	x, _ := vproto.H2F(args[2])
+	y, _ := vproto.H2F(args[3])
+	res := "err fresh1-no-transformer"
+	pan := vproto.Safe(func() {
+		s, err := proj.Parse(undef(args[0]))
+		if err != nil {
+			return
+		}
+		d, err := proj.Parse(undef(args[1]))
+		if err != nil {
+			return
+		}
+		t, err := s.NewTransform(d)
+		if err != nil || t == nil {
+			return
+		}
+		res = callRes(t, x, y)
+	})
+	if pan != "" {
+		res = "panic " + pan
+	}
+	fmt.Println(res)
 }
